@@ -181,6 +181,8 @@ class FnTr:
             return '(' + ' || '.join(self.bool_expr(v, env) for v in e.values) + ')'
         if isinstance(e, ast.UnaryOp) and isinstance(e.op, ast.Not):
             return '(!%s)' % self.bool_expr(e.operand, env)
+        if isinstance(e, ast.Constant) and isinstance(e.value, bool):
+            return 'true' if e.value else 'false'
         if isinstance(e, ast.Name) and e.id in env:
             k, ln = env[e.id]
             if k == 'opt': return '%s.isSome' % ln
